@@ -2,6 +2,7 @@ SPECIFICATION GSpec
 CONSTANTS
   Kinds = {"d", "ad", "r", "adc"}
   MaxLen = 2
+  Hooks = {"hw"}
   FaultModes = {"we", "ee"}
   Depth = 14
   MaxStarts = 2
